@@ -44,6 +44,7 @@ type c13Case struct {
 	K      int    `json:"k,omitempty"`
 	P      int    `json:"p,omitempty"`
 	Path   string `json:"path,omitempty"`
+	SQL    string `json:"sql,omitempty"`
 }
 
 func c13Table() dbdrv.TableDef {
@@ -499,7 +500,7 @@ func init() {
 		ID:          "C13",
 		Level:       "fault_enumeration",
 		NoThreads:   true,
-		Rule:        "ground truth R0 = complete run. (1) operator deadlines: 30 query shapes (filter, group, crosstab, having, sort, offset, limit, IN- and FROM-subqueries, shift, stride, ranges) × deadline already expired or made to expire after row i for every i (the consumer itself sleeps past the deadline: deterministic); (2) cluster, P in {2,3}: every non-empty subset of partitions × {no handler, error before any row, error after k rows for every k, handler blocking past ClusterQueryTimeout, retriable error then success} × 6 pushdown and non-pushdown queries with harness-registered handlers; (3) memory cap: MaxMemoryRatio 1e-12 with a 1 001-key table; (4) HTTP via web.Configure on httptest: {QueryTimeout 1ns, response-size estimate tripping after row K for K<=6, final JSON size check, planning error} × {/immediate, /async, /run} then a second request (cache) and the permalink; oracle per faulted run: error, or partition reported missing, or HTTP status != 200, or the complete result; retriable-then-success must be complete; evaluations = faulted runs, non-trivial = faults that actually removed data or were reported",
+		Rule:        "ground truth R0 = complete run. (1) operator deadlines: 30 query shapes (filter, group, crosstab, having, sort, offset, limit, IN- and FROM-subqueries, shift, stride, ranges) × deadline already expired or made to expire after row i for every i (the consumer itself sleeps past the deadline: deterministic); (2) cluster, P in {2,3}: every non-empty subset of partitions × {no handler, error before any row, error after k rows for every k, handler blocking past ClusterQueryTimeout, retriable error then success} × 6 pushdown and non-pushdown queries with harness-registered handlers; (3) memory cap: MaxMemoryRatio 1e-12 on a 1 001-key table × 11 query shapes (bare scan, group by key / all / coarser period, filter, having, sort, limit, range, FROM- and IN-subquery) against the uncapped result; (4) HTTP via web.Configure on httptest: {QueryTimeout 1ns, response-size estimate tripping after row K for K<=6, final JSON size check, planning error} × {/immediate, /async, /run} then a second request (cache) and the permalink; oracle per faulted run: error, or partition reported missing, or HTTP status != 200, or the complete result; retriable-then-success must be complete; evaluations = faulted runs, non-trivial = faults that actually removed data or were reported",
 		Assumptions: []string{"deadlines are exercised by outlasting them, never by racing them", "/run and /async wait 5 s in the web coalescer and are exercised for one query each"},
 		Shards:      func(tier string) int { return 8 },
 		Budget:      func(tier string) time.Duration { return 25 * time.Minute },
@@ -670,22 +671,48 @@ func c13CheckMemory(c *fw.Ctx) {
 		return
 	}
 	db.FlushAll()
+	// query shapes with and without a group stage, sort, filter, subqueries: whichever operator sits above the scan
+	// when the cap trips, the error has to reach the caller
+	queries := []string{
+		"SELECT * FROM tm",
+		"SELECT a FROM tm GROUP BY k",
+		"SELECT a FROM tm GROUP BY _",
+		"SELECT a FROM tm WHERE k >= 0 GROUP BY k",
+		"SELECT a FROM tm GROUP BY k HAVING a > 0",
+		"SELECT a FROM tm GROUP BY k ORDER BY a",
+		"SELECT a FROM tm GROUP BY k ORDER BY k LIMIT 2000",
+		"SELECT a FROM tm GROUP BY k, period(2s)",
+		"SELECT a FROM tm ASOF '2019-12-31T23:59:00Z' UNTIL '2020-01-01T00:00:01Z'",
+		"SELECT a FROM (SELECT a FROM tm GROUP BY k) GROUP BY _",
+		"SELECT a FROM tm WHERE k IN (SELECT k FROM tm) GROUP BY k",
+	}
+	r0 := map[string]*dbdrv.Result{}
+	for _, q := range queries {
+		r, err := db.Query(q, true)
+		if err != nil {
+			c.Incomplete(fmt.Sprintf("uncapped run of %q: %v", q, err))
+			return
+		}
+		r0[q] = r
+	}
 	db.Cfg.MaxMemoryRatio = 1e-12
 	if err := db.Restart(); err != nil {
 		c.Incomplete("restart with memory cap: " + err.Error())
 		return
 	}
-	c.Eval(1)
-	res, err := db.Query("SELECT * FROM tm", true)
-	cs := c13Case{Part: "memory"}
-	if err == nil && len(res.Rows) != n {
-		c.Violate("C13", "memory-cap-truncated-result-without-error", fmt.Sprintf("memory cap exceeded during a scan of %d keys: no error but only %d rows", n, len(res.Rows)), cs)
-		return
-	}
-	if err != nil {
-		c.Nontrivial("memory-cap")
-		c.Outcome("memory-error")
-	} else {
-		c.Outcome("memory-complete")
+	for _, q := range queries {
+		c.Eval(1)
+		res, err := db.Query(q, true)
+		cs := c13Case{Part: "memory", SQL: q}
+		if err == nil && fmt.Sprint(res.Canon()) != fmt.Sprint(r0[q].Canon()) {
+			c.Violate("C13", "memory-cap-truncated-result-without-error", fmt.Sprintf("%s: memory cap exceeded during a scan of %d keys: no error, %d rows, but the complete result has %d rows (or other values)", q, n, len(res.Rows), len(r0[q].Rows)), cs)
+			return
+		}
+		if err != nil {
+			c.Nontrivial("memory-cap " + q)
+			c.Outcome("memory-error")
+		} else {
+			c.Outcome("memory-complete")
+		}
 	}
 }
